@@ -20,7 +20,7 @@ ASSUMPTIONS = [
     "independent periodic table (symbol->Z, name->Z for Z<=118) in mc/refs/periodic.py is correct",
     "species are those reachable as module attributes of cherab.core.atomic.elements",
 ]
-REQUIRED_CLASSES = ["lookup:element", "lookup:isotope", "pairs", "lines", "unknown-key-rejected"]
+REQUIRED_CLASSES = ["lookup:element", "lookup:isotope", "pairs", "lines", "unknown-key-rejected", "cross-registry-sequences"]
 BUDGET_S = {"quick": 120, "thorough": 300}
 CHUNK = 4
 
@@ -49,6 +49,9 @@ def cases(tier):
         out.append({"kind": "pairs", "attr": n, "label": "pairs"})
         out.append({"kind": "lines", "attr": n, "label": "lines"})
     out.append({"kind": "global", "label": "global"})
+    # lookups are functions of their argument only: the same key through both registries, in both orders, repeated
+    out.append({"kind": "cross", "order": "element-first", "label": "cross"})
+    out.append({"kind": "cross", "order": "isotope-first", "label": "cross"})
     return out
 
 
@@ -232,6 +235,38 @@ def run_case(case):
                 pass
         classes.append("lines")
 
+    elif kind == "cross":
+        # every identifier spelling of every species goes through BOTH lookup functions (the valid one must return
+        # the species, the other must return its own species of that key or raise ValueError), three rounds in one
+        # process, so that a result that depends on earlier lookups (a shared memo, an index mutated by a lookup)
+        # is seen whatever the order
+        e_expect, i_expect = {}, {}
+        for _, o in els:
+            for ident in (o.name, o.symbol, str(o.atomic_number)):
+                for v in case_variants(ident):
+                    e_expect[v] = o
+        for _, o in isos:
+            for ident in (o.name, o.symbol, o.element.symbol + str(o.mass_number), o.element.name + str(o.mass_number)):
+                for v in case_variants(ident):
+                    i_expect[v] = o
+        keys = sorted(set(e_expect) | set(i_expect))
+        fns = [("lookup_element", lookup_element, e_expect), ("lookup_isotope", lookup_isotope, i_expect)]
+        if case["order"] == "isotope-first":
+            fns.reverse()
+        for rnd in range(3):
+            for k in keys:
+                for fname, fn, expect in fns:
+                    r, exc = _lookup(fn, k)
+                    n += 1
+                    want = expect.get(k)
+                    if want is None:
+                        if exc != "ValueError":
+                            V(viol, "%s:key-of-the-other-registry:not-rejected" % fname, "%s(%r) after other lookups (round %d, %s)" % (fname, k, rnd, case["order"]), "ValueError", repr(r) if exc is None else exc)
+                    elif r is not want:
+                        V(viol, "%s:result-depends-on-earlier-lookups" % fname, "%s(%r) in round %d of the %s sequence" % (fname, k, rnd, case["order"]), repr(want), repr(r) if exc is None else exc)
+            nontrivial.append(("cross", case["order"], rnd))
+        classes.append("cross-registry-sequences")
+
     else:  # global
         # unknown keys are rejected, never resolved to some species
         unknown = ["", "xx", "unobtainium", "0", "-1", "h0", "hydrogen0", "q7", " h", "h ", "119", 0, 119, None, 1.5]
@@ -259,5 +294,5 @@ def run_case(case):
         classes.append("unknown-key-rejected")
         nontrivial.append(("global",))
 
-    return {"viol": viol, "classes": classes, "outcome": (kind, case.get("attr"), n, len(viol)), "n": max(n, 1),
-            "states": [(kind, case.get("attr"))], "transitions": max(n, 1), "nontrivial": nontrivial}
+    return {"viol": viol, "classes": classes, "outcome": (kind, case.get("attr"), case.get("order"), n, len(viol)), "n": max(n, 1),
+            "states": [(kind, case.get("attr"), case.get("order"))], "transitions": max(n, 1), "nontrivial": nontrivial}
